@@ -131,6 +131,7 @@ def _registry():
         "eq": lambda a, b: a == b, "lt": lambda a, b: a < b, "contains": lambda a, b: b in a,
         "truediv": lambda a, b: a / b,
         "noop": lambda *a, **k: None,
+        "getsize": lambda p: os.path.getsize(str(p)) if os.path.isfile(str(p)) else -1,
     }
     return reg
 
